@@ -469,14 +469,19 @@ class Imaging(AbstractDataset):
             pixelization=pixelization,
         )
 
-        return Imaging(
+        dataset = Imaging(
             data=self.data,
             noise_map=self.noise_map,
             psf=self.psf,
+            noise_covariance_matrix=self.noise_covariance_matrix,
             over_sampling=over_sampling,
             pad_for_convolver=False,
             check_noise_map=False,
         )
+
+        dataset.unmasked = self.unmasked
+
+        return dataset
 
     def output_to_fits(
         self,
